@@ -5,7 +5,7 @@
                                                an upper-case parameter letter is a pointer; reply = 16 hex
                                                digits (the constant this echo function returns) or absent (mix)
      C q|u <m> <f> <arg> ...                   call; arg = i:<hex16> | l:<hex16> (integer-typed, two's
-                                               complement int64) | d:<hex16> (double-typed, bit pattern)
+                                               complement int64) | p:<hex16> (an address) | d:<hex16> (double-typed, bit pattern)
    Output, one line per case, events separated by " ; ":
      DIAG load <m> | DIAG reg <m> <f> | DIAG call <error>
      CALL <m> <f> <cast> <args>    cast like i(id), args like i:0000002a,d:4004000000000000 ("-" if none)
@@ -33,9 +33,9 @@ let hex8 z = Printf.sprintf "%08Lx" (Int64.logand (i64_of_z z) 0xFFFFFFFFL)
 let i64_of_hex s = Int64.of_string ("0x" ^ s)
 
 let ty_of_char c = match Char.lowercase_ascii c with
-  | 'i' -> TInt | 'l' -> TLong | 'd' -> TDouble | 'f' -> TFloat | 'v' -> TVoid | 'u' -> TUnknown | _ -> TOther
+  | 'i' -> TInt | 'l' -> TLong | 'd' -> TDouble | 'f' -> TFloat | 'v' -> TVoid | 'p' -> TPointer | 'u' -> TUnknown | _ -> TOther
 let char_of_ty = function
-  | TInt -> 'i' | TLong -> 'l' | TDouble -> 'd' | TFloat -> 'f' | TVoid -> 'v' | TUnknown -> 'u' | TOther -> 'o'
+  | TInt -> 'i' | TLong -> 'l' | TDouble -> 'd' | TFloat -> 'f' | TVoid -> 'v' | TPointer -> 'p' | TUnknown -> 'u' | TOther -> 'o'
 let explode s = List.init (String.length s) (String.get s)
 let sig_str (s : csig) =
   Printf.sprintf "%c(%s)" (char_of_ty s.cs_ret) (String.concat "" (List.map (fun t -> String.make 1 (char_of_ty t)) s.cs_params))
@@ -87,6 +87,7 @@ let () =
             match k with
             | 'i' -> { tv_type = TInt; tv_is_float = false; tv_is_string = false; tv_value = z_of_i64 (i64_of_hex h); tv_dbl = Z0 }
             | 'l' -> { tv_type = TLong; tv_is_float = false; tv_is_string = false; tv_value = z_of_i64 (i64_of_hex h); tv_dbl = Z0 }
+            | 'p' -> { tv_type = TPointer; tv_is_float = false; tv_is_string = false; tv_value = z_of_i64 (i64_of_hex h); tv_dbl = Z0 }
             | 'd' -> { tv_type = TDouble; tv_is_float = true; tv_is_string = false; tv_value = Z0; tv_dbl = z_of_u64 (i64_of_hex h) }
             | _ -> failwith ("bad arg " ^ a)) args in
           ops := OCall (q = "q", nat_of_int (int_of_string m), nat_of_int (int_of_string f), tvs) :: !ops
